@@ -291,6 +291,7 @@ class Check:
         self.known = [k for k in load_known() if k.get("property") == prop and k.get("status") == "known"]
         self.distinct = set()
         self.notes = []
+        self.drift = []          # trace steps that are no TeraVM step (binding drift, not a verdict)
 
     def add_tlc(self, r, label=None):
         self.cov["states"] += r.distinct
@@ -339,6 +340,12 @@ class Check:
             print("VIOLATION property=%s replay=%s" % (self.prop, path))
             print("  " + what[:600])
             rc = 1
+        if self.drift and rc == 0:
+            # the recorded execution is not a behaviour of the VM specification, but no property-level
+            # evidence was found: the specification no longer describes the code (exit 2, no verdict)
+            for dr in self.drift[:3]:
+                print("SPEC-DRIFT: trace step not allowed by TeraVM: %s (after %s)" % (dr.get("event"), dr.get("prev")))
+            rc = 2
         ev = {"property_id": self.prop, "tier": self.tier, "seed": seed(), "level": self.level,
               "coverage": self.cov, "assumptions": self.assumptions, "wall_s": round(wall, 2),
               "violations": len(self.violations)}
@@ -390,3 +397,110 @@ def main_wrapper(fn):
         print("TOOL-ERROR: %s" % e)
         sys.exit(2)
     sys.exit(rc)
+
+
+# ---------------------------------------------------------------- traced renders
+
+def with_listing(job):
+    """Append the steps that dump the listings of every chunk the job's renders can execute."""
+    j = dict(job)
+    steps = list(j["steps"])
+    extra = [{"op": "listing"}]
+    for s in j["steps"]:
+        if s.get("op") == "render_str":
+            extra.append({"op": "listing_str", "src": s["src"]})
+    j["steps"] = steps + extra
+    j["_nsteps"] = len(steps)
+    return j
+
+
+def collect_chunks(results, chunks):
+    for r in results:
+        for s in r:
+            if isinstance(s, dict) and "listing" in s:
+                for ch in s["listing"]:
+                    chunks.setdefault(ch["h"], ch)
+
+
+def traced(jobs, check, tag, timeout=900, chunk_limit=250000):
+    """Run jobs with the tracer on, validate every recorded trace against TeraVM on the real listings.
+    Returns the per-job results (listing steps stripped). Records flags/rejections on `check`."""
+    jl = [with_listing(dict(j, trace=True)) for j in jobs]
+    d = os.path.join(WORK, "run-" + tag)
+    shutil.rmtree(d, ignore_errors=True)
+    os.makedirs(d, exist_ok=True)
+    tp = os.path.join(d, "trace.ndjson")
+    res = run_jobs(jl, trace_out=tp, tag=tag, timeout=timeout)
+    chunks = {}
+    collect_chunks(res, chunks)
+    cp = os.path.join(d, "chunks.ndjson")
+    with open(cp, "w") as f:
+        for ch in chunks.values():
+            f.write(json.dumps(ch) + "\n")
+    out = [r[:j["_nsteps"]] for r, j in zip(res, jl)]
+    # split the trace file into pieces of bounded size (ndJsonDeserialize materialises the whole file)
+    pieces = []
+    cur = []
+    n = 0
+    paths = [tp] + [tp + ".%d" % k for k in range(1, 60) if os.path.exists(tp + ".%d" % k)]
+    for path in paths:
+        with open(path) as f:
+            for line in f:
+                if line.startswith('{"e":"reset"') and n >= chunk_limit:
+                    pieces.append(cur)
+                    cur = []
+                    n = 0
+                cur.append(line)
+                n += 1
+    if cur:
+        pieces.append(cur)
+    # a trace cut short by an abort has no "end": drop incomplete tails
+    for k, piece in enumerate(pieces):
+        pp = os.path.join(d, "piece-%d.ndjson" % k)
+        # keep only complete reset..end groups
+        good = []
+        grp = []
+        for line in piece:
+            if line.startswith('{"e":"reset"'):
+                grp = [line]
+            else:
+                grp.append(line)
+                if line.startswith('{"e":"end"'):
+                    good.extend(grp)
+                    grp = []
+        with open(pp, "w") as f:
+            f.writelines(good)
+        if not good:
+            continue
+        e = {"TRACE": pp, "CHUNKS": cp}
+        r = tlc("Trace_TeraVM", "Trace_TeraVM", env=e, workers=1, dfs=True, timeout=timeout, deadlock=False,
+                name="trace-%s-%d" % (tag, k), xmx="8g", allow_fail=True)
+        check.add_tlc(r, "Trace_TeraVM:%s:%d" % (tag, k))
+        ntr = sum(1 for x in good if x.startswith('{"e":"reset"'))
+        flags = r.tags.get("FLAG", [])
+        seen = set()
+        for fl in flags:
+            key = (fl["line"], fl["rule"])
+            if key in seen:
+                continue
+            seen.add(key)
+            sl, off = trace_slice(pp, fl["line"])
+            head = json.loads(sl[0]) if sl else {}
+            check.violation({"rule": fl["rule"], "trace_job": head.get("job"), "step": head.get("step")},
+                            "recorded trace breaks %s at event %d: %s" % (fl["rule"], off, sl[off] if off < len(sl) else ""),
+                            {"rule": fl["rule"], "job": jobs[head["job"]] if head.get("job") is not None and head["job"] < len(jobs) else None,
+                             "events": sl[:off + 1][-40:]})
+        if r.ok:
+            check.cov["traces_validated_against_impl"] += ntr
+            continue
+        m = re.search(r'"REJECTED", (\d+)', r.out)
+        if not m:
+            sys.stdout.write(r.out[-3000:])
+            raise ToolError("trace validation failed without a verdict: " + r.error[:300])
+        ln = int(m.group(1))
+        sl, off = trace_slice(pp, ln)
+        head = json.loads(sl[0]) if sl else {}
+        check.drift.append({"piece": pp, "line": ln, "event": sl[off] if off < len(sl) else None,
+                            "job": head.get("job"), "step": head.get("step"),
+                            "prev": sl[max(0, off - 3):off]})
+    return out
